@@ -268,7 +268,8 @@ func execFormat(spec string) (res engine.Result) {
 	}
 	res.Hit("format-cases")
 	if isolateFormat(ctrl, args) {
-		return runChild(spec, "format "+strings.Join(names, "")+" param=huge")
+		return runChild(spec, "format "+strings.Join(names, "")+" param=huge",
+			fmt.Sprintf("(format nil %s %s)", strconv.QuoteToASCII(ctrl), strings.Join(fmtArgLists[args], " ")))
 	}
 	leave := enter(false)
 	defer leave()
